@@ -316,6 +316,7 @@ def _to_vec(it, c, a):
 
 @model('Option::unwrap', 'Option::expect')
 def _opt_unwrap(it, c, a):
+    it.last_unwrap_lazy = isinstance(deref(a[0]), LazyV)          # was the unwrapped value an unconstrained (havoc'd) one?
     var, pay = shape(it, a[0], ['None', 'Some'])
     if var == 'None':
         raise Panic('unwrap-none', '', it.stack)
@@ -324,6 +325,7 @@ def _opt_unwrap(it, c, a):
 
 @model('Result::unwrap', 'Result::expect')
 def _res_unwrap(it, c, a):
+    it.last_unwrap_lazy = isinstance(deref(a[0]), LazyV)
     var, pay = shape(it, a[0], ['Ok', 'Err'])
     if var != 'Ok':
         raise Panic('unwrap-err', '', it.stack)
